@@ -208,3 +208,80 @@ Proof.
   - apply (nsec_sorted apex _ Hs dk out Ho).
   - apply (nsec_closed apex _ dk out Ho).
 Qed.
+
+(* ---- with the class: the vector is ordered by class first; for records of
+   one class (a zone) the class plays no role *)
+Definition one_class (k : N) (l : list crec) : Prop := Forall (fun x => fst x = k) l.
+
+Lemma cr_cmp_one_class k x y : fst x = k -> fst y = k -> cr_cmp x y = sr_cmp (snd x) (snd y).
+Proof. intros Hx Hy. unfold cr_cmp. cbv [record_cmp_class_first]. rewrite Hx, Hy, N.compare_refl. reflexivity. Qed.
+
+Lemma cr_insert_erase k x l : fst x = k -> one_class k l ->
+  map snd (cr_insert x l) = sr_insert (snd x) (map snd l) /\ one_class k (cr_insert x l).
+Proof.
+  intros Hx Hl. induction Hl as [|y r Hy Hr IH]; cbn [cr_insert map sr_insert].
+  - split; [reflexivity|repeat constructor; exact Hx].
+  - rewrite (cr_cmp_one_class k x y Hx Hy). destruct IH as [I1 I2].
+    destruct (sr_cmp (snd x) (snd y)); cbn [map].
+    + split; [reflexivity|]. constructor; [exact Hx|constructor; assumption].
+    + split; [reflexivity|]. constructor; [exact Hx|constructor; assumption].
+    + split; [rewrite I1; reflexivity|constructor; assumption].
+Qed.
+
+Lemma cr_sort_erase k l : one_class k l -> map snd (cr_sort l) = sr_sort (map snd l) /\ one_class k (cr_sort l).
+Proof.
+  unfold cr_sort, sr_sort. induction 1 as [|x r Hx Hr [I1 I2]]; cbn [fold_right map]; [split; [reflexivity|constructor]|].
+  destruct (cr_insert_erase k x _ Hx I2) as [J1 J2]. rewrite J1, I1. split; [reflexivity|exact J2].
+Qed.
+
+Lemma cr_eqb_one_class k x y : fst x = k -> fst y = k -> cr_eqb x y = srec_eqb (snd x) (snd y).
+Proof. intros Hx Hy. unfold cr_eqb. rewrite Hx, Hy, N.eqb_refl. reflexivity. Qed.
+
+Lemma cr_dedup_from_erase k : forall l prev, fst prev = k -> one_class k l ->
+  map snd (cr_dedup_from prev l) = sr_dedup_from (snd prev) (map snd l).
+Proof.
+  induction l as [|x r IH]; intros prev Hp Hl; [reflexivity|].
+  pose proof (Forall_inv Hl) as Hx. pose proof (Forall_inv_tail Hl) as Hr. cbn beta in Hx.
+  cbn [cr_dedup_from map sr_dedup_from]. rewrite (cr_eqb_one_class _ x prev Hx Hp).
+  destruct (srec_eqb (snd x) (snd prev)); [apply IH; assumption|]. cbn [map]. rewrite IH by assumption. reflexivity.
+Qed.
+
+Theorem sorted_records_one_class k l : one_class k l ->
+  map snd (sorted_records_c l) = sorted_records (map snd l).
+Proof.
+  intros Hl. unfold sorted_records_c, sorted_records. destruct (cr_sort_erase k l Hl) as [E1 E2]. rewrite <- E1.
+  destruct (cr_sort l) as [|x r]; [reflexivity|].
+  pose proof (Forall_inv E2) as Hx. pose proof (Forall_inv_tail E2) as Hr. cbn beta in Hx.
+  cbn [cr_dedup map sr_dedup]. rewrite (cr_dedup_from_erase k) by assumption. reflexivity.
+Qed.
+
+Lemma cr_insert_perm x l : Permutation (cr_insert x l) (x :: l).
+Proof.
+  induction l as [|y r IH]; cbn [cr_insert]; [apply Permutation_refl|].
+  destruct (cr_cmp x y); try apply Permutation_refl.
+  eapply Permutation_trans; [apply perm_skip; exact IH|apply perm_swap].
+Qed.
+
+Definition class_le (a b : crec) : Prop := fst a <= fst b.
+
+Lemma cr_insert_class_sorted x l : StronglySorted class_le l -> StronglySorted class_le (cr_insert x l).
+Proof.
+  induction 1 as [|y r Hs IH Hy]; cbn [cr_insert]; [repeat constructor|].
+  assert (C : cr_cmp x y <> Gt -> fst x <= fst y).
+  { unfold cr_cmp. cbv [record_cmp_class_first]. destruct (N.compare_spec (fst x) (fst y)); intros; try lia. congruence. }
+  assert (G : cr_cmp x y = Gt -> fst y <= fst x).
+  { unfold cr_cmp. cbv [record_cmp_class_first]. destruct (N.compare_spec (fst x) (fst y)); intros; try lia. discriminate. }
+  destruct (cr_cmp x y) eqn:E.
+  - constructor; [constructor; assumption|]. constructor; [apply C; discriminate|].
+    eapply Forall_impl; [|exact Hy]. unfold class_le. intros z Hz. specialize (C ltac:(discriminate)). lia.
+  - constructor; [constructor; assumption|]. constructor; [apply C; discriminate|].
+    eapply Forall_impl; [|exact Hy]. unfold class_le. intros z Hz. specialize (C ltac:(discriminate)). lia.
+  - constructor; [exact IH|]. apply Forall_forall. intros z Hz.
+    apply (Permutation_in _ (cr_insert_perm x r)) in Hz as [<-|Hz]; [apply G; reflexivity|].
+    rewrite Forall_forall in Hy. apply Hy. exact Hz.
+Qed.
+
+Theorem cr_sort_class_sorted l : StronglySorted class_le (cr_sort l).
+Proof.
+  unfold cr_sort. induction l as [|a l IH]; cbn [fold_right]; [constructor|]. apply cr_insert_class_sorted. exact IH.
+Qed.
